@@ -667,6 +667,51 @@ func (g *gen) stmts(ss []ast.Stmt, depth int, final func() string) string {
 		g.vars = saved
 		return "if " + c + "\n" + ind(depth+1) + "then " + a + "\n" + ind(depth+1) + "else " + b
 	}
+	if sw, ok := s.(*ast.SwitchStmt); ok && sw.Init == nil {
+		// a switch without fallthrough is the if / else-if chain of its cases, in order
+		var chain ast.Stmt
+		var last *ast.IfStmt
+		var deflt []ast.Stmt
+		hasDefault := false
+		for _, c := range sw.Body.List {
+			cc := c.(*ast.CaseClause)
+			for _, st := range cc.Body {
+				if br, ok := st.(*ast.BranchStmt); ok {
+					fail(g.fset.Position(br.Pos()), "%s inside a switch case not supported", br.Tok)
+				}
+			}
+			if cc.List == nil {
+				deflt, hasDefault = cc.Body, true
+				continue
+			}
+			var cond ast.Expr
+			for _, e := range cc.List {
+				var one ast.Expr = e
+				if sw.Tag != nil {
+					one = &ast.BinaryExpr{X: sw.Tag, Op: token.EQL, Y: e}
+				}
+				if cond == nil {
+					cond = one
+				} else {
+					cond = &ast.BinaryExpr{X: cond, Op: token.LOR, Y: one}
+				}
+			}
+			is := &ast.IfStmt{If: cc.Pos(), Cond: cond, Body: &ast.BlockStmt{List: cc.Body}}
+			if last == nil {
+				chain = is
+			} else {
+				last.Else = is
+			}
+			last = is
+		}
+		if last == nil {
+			return g.stmts(append(append([]ast.Stmt{}, deflt...), rest...), depth, final)
+		}
+		if hasDefault {
+			last.Else = &ast.BlockStmt{List: deflt}
+		}
+		return g.stmts(append([]ast.Stmt{chain}, rest...), depth, final)
+	}
 	fail(pos, "statement %T not supported: %s", s, g.text(s))
 	return ""
 }
@@ -976,7 +1021,10 @@ func main() {
 			}
 			nFields[t.Name] = len(ps)
 			ps = append(ps, fparams...)
-			for _, n := range g.envOrd {
+			// environment parameters in name order (not in order of first use, which a harmless rewrite changes)
+			envNames := append([]string{}, g.envOrd...)
+			sort.Strings(envNames)
+			for _, n := range envNames {
 				ps = append(ps, param{n, g.envP[n]})
 			}
 			// parameters must be distinct
